@@ -125,8 +125,11 @@ def _worker(jobs, task_q, res_q, wid):
         opts = dict(job.opts)
         opts['want_sample'] = cnt < 2
         try:
-            r = symex.run_path(job.fn, job.kwargs, prefix, opts, collect_funcs=(cnt < 2),
-                               func_filter=opts.get('func_filter', '/repo/jesse'))
+            if opts.get('fork_per_path'):
+                r = _run_forked(job, prefix, opts, cnt)
+            else:
+                r = symex.run_path(job.fn, job.kwargs, prefix, opts, collect_funcs=(cnt < 2),
+                                   func_filter=opts.get('func_filter', '/repo/jesse'))
         except BaseException as e:  # engine error
             r = {'status': 'error', 'error': 'ENGINE: ' + repr(e) + '\n' + traceback.format_exc(limit=10),
                  'new_prefixes': [], 'events': {}, 'obligations': 0, 'discharged': 0, 'concrete_ok': 0,
@@ -135,6 +138,35 @@ def _worker(jobs, task_q, res_q, wid):
         r.pop('notes', None)
         res_q.put((ji, r))
         n_done += 1
+
+
+def _run_forked(job, prefix, opts, cnt):
+    """run one path in a forked child so that the code under test starts from the pristine process state of the worker
+    (used where process-global state is the subject: C11)"""
+    import pickle
+    r_fd, w_fd = os.pipe()
+    pid = os.fork()
+    if pid == 0:
+        code = 0
+        try:
+            os.close(r_fd)
+            r = symex.run_path(job.fn, job.kwargs, prefix, opts, collect_funcs=(cnt < 2),
+                               func_filter=opts.get('func_filter', '/repo/jesse'))
+            r.pop('out', None)
+            data = pickle.dumps(r)
+            with os.fdopen(w_fd, 'wb') as f:
+                f.write(data)
+        except BaseException:
+            code = 1
+        finally:
+            os._exit(code)
+    os.close(w_fd)
+    with os.fdopen(r_fd, 'rb') as f:
+        data = f.read()
+    os.waitpid(pid, 0)
+    if not data:
+        raise RuntimeError('forked path produced no result')
+    return pickle.loads(data)
 
 
 def explore(jobs, nworkers=None, budget_s=600, max_paths=None, stop_on_violation=False, progress=None):
